@@ -2,9 +2,16 @@
 Correspondence + oracle harness.
 
 A *scenario* is one connection: a mode, the list of reads (the partition of one byte stream), and -
-for the oracle - the messages that were sent.
+for the oracle - the messages that were sent; or (mode 'multi', stream `connections-interleaved`, state-leak round
+2026-09-30) a HISTORY over several connections of one process: `conns` (one single-connection spec each) and
+`events` = [op, connection, argument] with op open / read / fd / lose.
 
-  mode 'binary'       a BasicDBusProtocol subclass with `_authenticated = True` set by hand
+Every connection is made the way a reactor makes it (class `Conn`): `Class()`, the public `authenticator` hook,
+`makeConnection(transport)`; after that only `dataReceived`, `fileDescriptorReceived`, `connectionLost` touch it.
+The harness sets NO receiver state by hand (no `_authenticated = True`, no `_receivedFDs = [...]`).
+
+  mode 'binary'       a BasicDBusProtocol subclass brought into binary mode by a handshake read of its own
+                      (`BEGIN` + stub authenticator) that is not part of the scenario
   mode 'stub-client'  / 'stub-server': line mode with a scripted stub authenticator (outcomes c/s/f per line)
   mode 'real-client'  ClientAuthenticator on a non-UNIX transport (server lines REJECTED / OK <hex>)
   mode 'real-server'  BusProtocol + BusAuthenticator (ANONYMOUS); the transport always offers a stub socket
@@ -52,6 +59,9 @@ TRUSTED_BASE = [
     '(validated by the correspondence streams)',
     'the authenticator is an abstract parameter of the model; for the real authenticators the harness '
     'records the outcome of each handled line and passes it to the model as a script',
+    'in the model the connections of a process share nothing BY CONSTRUCTION (`Conns.runHist` hands `step` the state of '
+    'one connection); that the code keeps its framing state per instance is checked by the stream '
+    'connections-interleaved (model command H on the whole history + the oracle per connection)',
     'big-endian test messages are produced by a reference serializer built on txdbus.marshal.marshal '
     '(DBusMessage._marshal encodes the body little-endian whatever `endian` says - a C03 matter)',
 ]
@@ -71,12 +81,22 @@ ASSUMPTIONS = [
     'header); the sub-stream with pre-loaded descriptors compares `parseMessage(raw, _receivedFDs)` and the slice '
     '`_receivedFDs[m.unix_fds:]` with the model only (S3) - how the list must evolve over a run is C05',
     'the hooks return normally in the model (`recvRun`); raising / re-entering handlers: stream reentrant-delivery',
+    'connections-interleaved: a connection on which an exception escaped dataReceived (or whose handler raised, unless '
+    'the scenario says the transport catches it) gets connectionLost and no further reads, as the reactor does; the OTHER '
+    'connections of the history go on and are judged in full; a lost connection\'s protocol object is released at once '
+    '(a later connection may get its id())',
+    'connections-interleaved judges descriptor VALUES too (the body of a message that announces n descriptors holds the '
+    'next n descriptors queued on ITS connection by fileDescriptorReceived) - only where all of a connection\'s '
+    'descriptors are queued before the bytes that use them; the general ordering rule is C20',
+    'runs in a fresh interpreter (harness.c04.fresh_fails / fresh_stream_search) happen only AFTER a violation was found '
+    'in this process, to find the input that reproduces it on its own (a single scenario, or the history of connections '
+    'before it); they never decide whether there is a violation',
     'a hand-off case is not judged when the AUTHENTICATOR refused the handshake although it was handed its lines '
     '(authentication is C06 / C07); when lines are missing or altered the case is judged (the handshakes use '
     'well-formed lines and 32-hex-digit GUIDs)',
 ]
-RULE = ('one case = one (stream, partition) pair; distinct = distinct canonical JSON of (mode, reads); '
-        'non-trivial = at least one complete message or auth line is delivered')
+RULE = ('one case = one (stream, partition) pair, or one history of several connections; distinct = distinct canonical '
+        'JSON of (mode, reads) / of the history; non-trivial = at least one complete message or auth line is delivered')
 
 MAX_AUTH = 16384
 
@@ -638,7 +658,7 @@ class Conn:
             pass
         self.wrap = self.p = self.tr = self.exc = None
         del p
-        gc.collect(0)
+        gc.collect()          # cheap: observe_history froze everything that existed before the history
 
     def obs(self):
         ctx, p, tr = self.ctx, self.p, self.tr
@@ -690,6 +710,15 @@ def observe_history(ctx, sc):
     on which an exception escaped `dataReceived` is dropped as the reactor drops it (connectionLost, no further reads:
     its later 'read' events are skipped); the OTHER connections go on.  A connection whose scheduled handler raised
     (`raise_at`) is dropped too unless it says `after_raise: keep`.  -> list of observations, one per connection."""
+    import gc
+    gc.freeze()              # a lost connection is collected at once (Conn.release): keep those collections small
+    try:
+        return _observe_history(ctx, sc)
+    finally:
+        gc.unfreeze()
+
+
+def _observe_history(ctx, sc):
     conns, done = {}, {}
 
     def gone(k):
@@ -849,6 +878,14 @@ def classify(sc, obs):
     what = 'delivered %d messages, sent %d' % (len(obs['raws']), len(sent))
     if obs['crashed']:
         what += '; %s escaped dataReceived' % obs['crashed']
+    if sc.get('judge_fds') and obs['raws'] == sent and not obs['crashed']:
+        exp = expected_of(sent, sc.get('fds'))
+        nobody = lambda d: {a: b for a, b in d.items() if a != 'body'}
+        if len(exp) == len(obs['parsed']) and all('parse-error' not in g and nobody(g) == nobody(e)
+                                                  for g, e in zip(obs['parsed'], exp)):
+            return 'delivered-with-descriptors-of-another-connection', (
+                'the frames are intact, but the descriptor values handed over with them are not the descriptors that '
+                'were queued on this connection (fileDescriptorReceived), in order: ' + what)
     reads = sc.get('_reads') or [bytes.fromhex(r) for r in sc['reads']]
     if sc.get('nest') or sc.get('raise_at') is not None:
         return ('reentrant-delivery-misframed',
@@ -984,7 +1021,7 @@ class Batch:
                 key, what = classify(sc, o)
                 if key:
                     inp = shrink_sc(sc)
-                    if convertible(sc) and key not in FRESH['keys']:
+                    if convertible(sc):
                         # does this input reproduce the failure on its own, or did an earlier connection of this
                         # process leave something behind?  (STATE_AUDIT M6 / G7: then the SEQUENCE is the input)
                         key2, small, sk, remark = locate(ctx, as_history(sc), 0, key,
@@ -1081,7 +1118,7 @@ def drop_connections(sc, keep):
     return d, ren
 
 
-FRESH = {'left': 0, 'keys': set()}
+FRESH = {'left': 0, 'keys': set(), 'tries': {}}
 FRESH_BUDGET = 16
 _FRESH_CODE = (
     "import sys, json, os\n"
@@ -1119,6 +1156,46 @@ def fresh_fails(ctx, hist, k):
     return None
 
 
+_SEARCH_CODE = (
+    "import sys, json, os\n"
+    "d = json.load(sys.stdin)\n"
+    "sys.path.insert(0, d['verif']); os.chdir(d['verif'])\n"
+    "from vlib import ctx as ctxmod\n"
+    "ctxmod.use_repo(d['repo'])\n"
+    "from harness import c04\n"
+    "c = ctxmod.Ctx('C04', d['tier'], d['seed'], d['repo'])\n"
+    "c.model_available = False\n"
+    "c04.FRESH.update(left=c04.FRESH_BUDGET, keys=set(), tries={})\n"
+    "B = c04.Batch(c)\n"
+    "c04.stream_connections(c, B, only_random=True)\n"
+    "B.flush()\n"
+    "out = [v for v in c.violations if v['key'] in c04.FRESH['keys'] and 'NOT reproduced' not in v['what']]\n"
+    "print('SEARCH-RESULT ' + json.dumps([{a: v[a] for a in ('key', 'what', 'input', 'observed', 'expected')} "
+    "for v in out], default=repr))\n")
+
+
+def fresh_stream_search(ctx):
+    """Nothing of what failed in this process could be reproduced from its own input in a fresh process: the process
+    was already carrying state when the harness started (the table translators probe the same code before).  Then the
+    stream `connections-interleaved` is run once more in a FRESH interpreter, where the first failing history IS its own
+    reproducer.  -> the reproduced violations found there."""
+    import json
+    import os
+    import subprocess
+    import sys
+    here = os.path.dirname(os.path.dirname(os.path.abspath(__file__)))
+    try:
+        r = subprocess.run([sys.executable, '-c', _SEARCH_CODE], stdout=subprocess.PIPE, stderr=subprocess.PIPE,
+                           input=json.dumps({'verif': here, 'repo': ctx.repo, 'tier': 'quick',
+                                             'seed': ctx.seed}).encode(), timeout=300)
+    except Exception:
+        return []
+    for line in r.stdout.decode('utf-8', 'replace').split('\n'):
+        if line.startswith('SEARCH-RESULT '):
+            return json.loads(line[len('SEARCH-RESULT '):])
+    return []
+
+
 def convertible(sc):
     return (sc.get('mode') == 'multi' or not (sc.get('nest') or sc.get('raise_at') is not None or '_reads' in sc
                                               or 'compact_huge' in sc or sum(len(r) for r in sc['reads']) > 400000))
@@ -1145,10 +1222,17 @@ def concat_histories(hs):
 
 
 def minimise_fresh(ctx, hist, k):
-    """Greedy, every candidate RUN in a fresh interpreter: leave out the other connections one at a time (latest
-    first), then the events behind the failing connection's last one, while connection k still fails."""
+    """Every candidate is RUN in a fresh interpreter: first the failing connection with ONE other (the latest first),
+    then greedily leave out the remaining others one at a time, then the events behind the failing connection's last
+    one - as long as connection k still fails."""
     cur, ck = hist, k
-    for _ in range(len(hist['conns'])):
+    if len(cur['conns']) > 2:
+        for j in sorted((i for i in range(len(cur['conns'])) if i != ck), reverse=True)[:5]:
+            h, ren = drop_connections(cur, [j, ck])
+            if fresh_fails(ctx, h, ren[ck]):
+                cur, ck = h, ren[ck]
+                break
+    for _ in range(min(len(cur['conns']), 5)):
         for cand in sorted((i for i in range(len(cur['conns'])) if i != ck), reverse=True):
             h, ren = drop_connections(cur, [i for i in range(len(cur['conns'])) if i != cand])
             if fresh_fails(ctx, h, ren[ck]):
@@ -1166,24 +1250,31 @@ def minimise_fresh(ctx, hist, k):
 
 def locate(ctx, hist, k, key, earlier):
     """What reproduces the failure of connection k of `hist` (found in this process) from a fresh process?
-    -> (key, history, k, remark).  `earlier` = the scenarios that ran just before it in this process."""
-    if key in FRESH['keys'] or FRESH['left'] <= 0:
+    -> (key, history, k, remark).  `earlier` = the scenarios that ran just before it in this process.
+    At most three attempts per key and FRESH_BUDGET fresh runs per check; a key is settled once it was reproduced."""
+    if FRESH['left'] <= 0 and hist.get('failing_connection') is not None and len(hist['conns']) > 1:
+        return 'delivery-depends-on-other-connection', hist, k, None       # the replay of a located history
+    tries = FRESH['tries'].get(key, 0)
+    if key in FRESH['keys'] or tries >= 3 or FRESH['left'] <= 0:
         return key, hist, k, None
-    FRESH['keys'].add(key)
+    FRESH['tries'][key] = tries + 1
     r = fresh_fails(ctx, hist, k)
     if r is None:
         return key, hist, k, None
     remark = None
     if not r:
         # not from this input alone: state left behind by the scenarios before it
-        big, off = concat_histories([as_history(e) for e in earlier if convertible(e)] + [hist])
+        earlier = [as_history(e) for e in earlier[-3:] if convertible(e)]
+        big, off = concat_histories(earlier + [hist])
         if not (earlier and fresh_fails(ctx, big, k + off)):
             return key, hist, k, ('NOT reproduced from this input alone in a fresh process (nor behind the %d scenarios '
                                   'that ran before it): it depends on what earlier scenarios of the run left in the '
                                   'process' % len(earlier))
         hist, k = big, k + off
+    FRESH['keys'].add(key)
     small, sk = minimise_fresh(ctx, hist, k)
     if len(small['conns']) > 1:
+        FRESH['keys'].add('delivery-depends-on-other-connection')
         return ('delivery-depends-on-other-connection', small, sk,
                 'fails in a fresh process with the other connection(s) of this history, passes without them')
     return key, small, sk, remark
@@ -1864,7 +1955,7 @@ def all_merges(a, b):
         yield out
 
 
-def stream_connections(ctx, B):
+def stream_connections(ctx, B, only_random=False):
     """`connections-interleaved` (state-leak round 2026-09-30, STATE_AUDIT G3 / M1 / M2 / M5): HISTORIES over several
     connections of one process, every one made by `makeConnection` and brought into binary mode by its own handshake.
       interleaved        2-4 connections alive side by side (stub / real authenticators, client and server classes,
@@ -1914,6 +2005,8 @@ def stream_connections(ctx, B):
                 after[c] = a
         B.add(name, mk_history(fam, specs, interleave(rng, seqs, after)))
     B.flush()
+    if only_random:
+        return
     # every interleaving of two short connections
     for i in range(ctx.scale(quick=3, thorough=40)):
         m0 = rng.choice(['stub-client', 'stub-server', 'real-client'])
@@ -2183,7 +2276,7 @@ def run(ctx):
     SKIPPED.clear()
     _MISSING.clear()
     _NOTED.clear()
-    FRESH.update(left=FRESH_BUDGET, keys=set())
+    FRESH.update(left=FRESH_BUDGET, keys=set(), tries={})
     del SERIALIZER_NOTES[:]
     import logging  # noqa
     from twisted.python import log as tlog  # noqa  (log.msg without observers is silent)
@@ -2218,6 +2311,13 @@ def run(ctx):
     guarded(stream_limit)
     guarded(stream_reentrant)
     guarded(stream_parsed_after_framing)
+    if ctx.violations and not FRESH['keys']:
+        # violations, but no input that reproduces one on its own: look for one in a fresh process
+        found = fresh_stream_search(ctx)
+        ctx.note('no violation of this run was reproduced from its own input in a fresh process; the stream '
+                 'connections-interleaved run in a fresh process gave %d reproduced violation(s)' % len(found))
+        for v in found:
+            ctx.violation(v['key'], v['what'], inp=v['input'], observed=v['observed'], expected=v['expected'])
     for t in SERIALIZER_NOTES[:3]:
         ctx.note(t)
     for st, k in sorted(SKIPPED.items()):
